@@ -8,7 +8,7 @@ import warnings
 from .. import core, tree
 
 MOD = "mc.props.c12"
-NAMES = ["n0", 'q"x', "b\\", "a b", "é", '6"-6\\"', "n0", '\\"', "x;y", ""]
+NAMES = ["n0", 'q"x', "b\\", "a b", "é", '6"-6\\"', "n0", '\\"', "x;y", "", "100%", "%s", "%%d"]
 KF = "KF-C12-edge-to-stopped-child"
 
 
@@ -220,13 +220,13 @@ def judge_export(t, m, names, which, lines, start, stopset, hidden, ml, ctx, kno
     return p if not isinstance(p, str) else None
 
 
-def check_shape(t, shape, known, rot=0, only=None, custom=True, histories=True):
+def check_shape(t, shape, known, rot=0, only=None, custom=True, histories=True, kind="node"):
     m = tree.Model.from_shape(shape)
     names = names_for(m, rot)
     exps = exporters()
-    nodes = tree.build(m, tree.default_factory("node"), "topdown", names=names)
+    nodes = tree.build(m, tree.default_factory(kind), "topdown", names=names)
     idm = tree.IdMap(nodes)
-    ctx = {"shape": shape, "rot": rot}
+    ctx = {"shape": shape, "rot": rot, "kind": kind}
     for start in range(m.n):
         t.c["states"] += 1
         sub = m.pre(start)
@@ -371,9 +371,11 @@ def check_histories(t, m, names, known, ctx):
 def job(items, custom, histories):
     t = core.Tally()
     known = core.load_known_findings("C12")
-    for shape, rot in items:
-        core.guard(t, "C12", {"engine": "E2", "module": MOD, "shape": shape, "rot": rot}, check_shape, t, shape, known, rot,
-                   None, custom, histories)
+    for item in items:
+        shape, rot = item[:2]
+        kind = item[2] if len(item) > 2 else "node"
+        core.guard(t, "C12", {"engine": "E2", "module": MOD, "shape": shape, "rot": rot, "kind": kind}, check_shape, t, shape, known, rot,
+                   None, custom and kind == "node", histories and kind == "node", kind)
     return t
 
 
@@ -387,7 +389,7 @@ def replay(c):
     only = None
     if "exporter" in c and "history" not in c and not c.get("custom"):
         only = (c["exporter"], c["start"], sorted(c["stop"]), sorted(c["filtered_out"]), c["maxlevel"])
-    check_shape(t, _tup(c["shape"]), known, c.get("rot", 0), only)
+    check_shape(t, _tup(c["shape"]), known, c.get("rot", 0), only, kind=c.get("kind", "node"))
     return [v["why"] for v in t.violations]
 
 
@@ -395,6 +397,8 @@ def run(tier):
     nmax = 5 if tier == "quick" else 6
     items = [(s, r) for s in tree.shapes_upto(nmax - 1) for r in ((0, 3) if tier == "quick" else (0, 3, 7))]
     items += [(s, 1 + k % 5) for k, s in enumerate(tree.plane_trees(nmax))]
+    # node classes with value semantics / their own truth value (identifiers and admission must not depend on them)
+    items += [(s, 2, kind) for kind in ("eqhash", "falsy", "weird") for s in tree.shapes_upto(nmax - 1)]
     t = core.Tally()
     core.run_pool([(MOD, "job", {"items": [it], "custom": True, "histories": True}) for it in items[::-1]], 0, into=t)
     core.run_pool([(MOD, "job", {"items": c, "custom": False, "histories": False})
